@@ -161,3 +161,12 @@ META["C13"] = {
     "note": "The real transport is the oracle, so scripts avoid what gRPC itself leaves nondeterministic (buffer-dependent intermediate results, header operations after headers went out, reserved metadata keys); cancelled/deadline calls are compared by outcome class only.",
     "technique": "differential testing with rapid-generated call scripts: wrap.ServerToClient vs a real gRPC server on bufconn",
 }
+META["C14"] = {
+    "text": ("Descriptor-driven generic stateful property testing over every discovered server: model servers and memory devices are found by scanning pkg/trait at check time, every Get/Update/Pull triple "
+             "on one resource type is found in the service descriptors, and each is driven through the full wrapper -> router -> wrapper -> server stack purely from descriptors (dynamic requests, "
+             "generated values of the resource type, nil/valid/invalid update masks, read masks, 0-2 Pull streams opened and closed, updates-only). Oracle: Update response == next Get, masked Get == "
+             "projection of the full Get, a new Pull starts with the current value unless updates-only, stream messages are exactly (a subsequence of) the responses in order and carry the request's name, "
+             "an update that changes the value beyond any configured tolerance must arrive while the reader keeps up, a rejected Update leaves Get unchanged."),
+    "note": "Keyed resources use small hand-written adapters (hail, vending stock) or are listed as not driven (publication: see C20); composite servers that update in several steps (open/close) may show intermediate aggregates; tolerances are handled conservatively (must-appear only beyond 1.0 / 2 s or a non-float difference); one known finding (no initial message from PullPositions on an empty open/close device).",
+    "technique": "descriptor-driven generic stateful property testing (rapid) over servers discovered from the source tree, through the full in-process gRPC stack",
+}
